@@ -457,19 +457,21 @@ impl Choice {
                 .and_modify(|e| *e += 1)
                 .or_insert(1);
         }
-        // Update names to make them unique
-        name_counts
-            .iter()
-            .filter(|&(_, count)| *count > 1)
-            .for_each(|(name, _)| {
-                choices
-                    .iter_mut()
-                    .filter(|c| c.name == *name)
-                    .enumerate()
-                    .for_each(|(idx, c)| {
-                        c.name.push_str(&(idx + 1).to_string());
-                    });
-            });
+        // Update names to make them unique. Each duplicated name gets its
+        // 1-based occurrence index appended, in a single pass over the choices
+        // in grammar order. The map is only used for lookups: iterating it
+        // would let the per-process hash order decide the generated names
+        // whenever a renamed choice (`A` -> `A1`) meets another duplicated
+        // name (`A1`).
+        let mut seen: HashMap<String, usize> = HashMap::new();
+        for c in choices.iter_mut() {
+            if name_counts[&c.name] > 1 {
+                let idx = seen.entry(c.name.clone()).or_insert(0);
+                *idx += 1;
+                let idx = *idx;
+                c.name.push_str(&idx.to_string());
+            }
+        }
     }
 }
 
